@@ -1,6 +1,7 @@
 import Dbus.Proofs.Bus.Names
 import Dbus.Props.C07
 import Dbus.Props.C09
+import Dbus.Proofs.Bus.MonInv
 /-
   C05 — unicast messages reach exactly the current owner, once, in order.
 -/
@@ -199,5 +200,14 @@ theorem run_snd_append (tbl : List IfaceRow) (b : Bus) (evs : List Ev) (ev : Ev)
     extend those of its prefix -/
 theorem outputs_in_processing_order (tbl : List IfaceRow) (b : Bus) (evs : List Ev) (ev : Ev) :
     ∃ out, (run tbl b (evs ++ [ev])).2 = (run tbl b evs).2 ++ [out] := ⟨_, run_snd_append tbl b evs ev⟩
+
+/-- **The owner a unicast message is delivered to is a connected client** (and no monitor), in every reachable state: the
+    registry never names a connection that has gone. -/
+theorem primary_owner_is_connected (tbl : List IfaceRow) (l : Limits) (p : Policy) (evs : List Ev) (d : Bytes) (a : ConnId)
+    (h : (run tbl { limits := l, policy := p } evs).1.primary? d = some a) :
+    ∃ x ∈ (run tbl { limits := l, policy := p } evs).1.conns, x.id = a ∧ x.monitor = false := by
+  have hg := good_run tbl (good_init l p) evs
+  obtain ⟨s, hs, hq⟩ := primary?_inQueue h
+  exact hg.reg.live s hs a hq
 
 end Dbus.Props.C05
